@@ -164,6 +164,89 @@ pub fn run(run: &mut Run) -> PResult {
         }
         true
     });
+    if !run.is_twin() {
+        // call sequences: the predicates (deprecated free functions included) must not depend on earlier calls
+        use super::multi::{neighbour, NEIGHBOUR_KINDS};
+        use proptest::prelude::*;
+        let st = engine::RStats::new();
+        let cases: u32 = if run.tier == Tier::Thorough { 1_000_000 } else { 150_000 };
+        let total = choose(52, 5);
+        let strat = (0..total, 0u8..NEIGHBOUR_KINDS, any::<u64>(), 0u8..NEIGHBOUR_KINDS, any::<u64>());
+        let build = |(idx, k1, p1, k2, p2): (u64, u8, u64, u8, u64)| -> Vec<[u32; 5]> {
+            let a = crate::engine::enumerate::unrank::<5>(52, idx);
+            let b = neighbour(&a, k1, p1);
+            let c = neighbour(&b, k2, p2);
+            [a, b, a, c, b, a].iter().map(words_of_ci).collect()
+        };
+        let seq_check = |seq: &[[u32; 5]]| -> Result<(), String> {
+            // warm-up on an unrelated hand
+            let _ = examine(&words_of_ci(&[51u8, 47, 43, 39, 2]));
+            for (i, w) in seq.iter().enumerate() {
+                examine(w).map_err(|(cl, m)| format!("call {} of a sequence: {}: {}", i + 1, cl, m))?;
+            }
+            Ok(())
+        };
+        let res = crate::engine::pt::run(run.seed, 0xC13_5E, cases, &strat, |v| {
+            let seq = build(v);
+            st.note(mix2(v.0, mix2(v.2 ^ v.1 as u64, v.4 ^ v.3 as u64)), true, None, || json!({"sequence": seq.iter().map(|h| card::render_hand(h)).collect::<Vec<_>>()}));
+            seq_check(&seq).map_err(|e| {
+                st.freeze();
+                e
+            })
+        });
+        st.flush(run, "call sequences over neighbour hands (A B A C B A), all predicates per call", "proptest (histories)", None, "neighbours as in C02 (incl. two same-suited cards moved to another suit)");
+        if let Err(f) = res {
+            let seq = build(f.value);
+            let mut cur = seq.clone();
+            for n in 1..=seq.len() {
+                if seq_check(&seq[..n]).is_err() {
+                    cur = seq[..n].to_vec();
+                    break;
+                }
+            }
+            let mut i = 0;
+            while cur.len() > 1 && i + 1 < cur.len() {
+                let mut cand = cur.clone();
+                cand.remove(i);
+                if seq_check(&cand).is_err() {
+                    cur = cand;
+                } else {
+                    i += 1;
+                }
+            }
+            let m = seq_check(&cur).err().unwrap_or_else(|| "not reproducible".into());
+            let sig = cur.iter().map(|h| card::render_hand(h)).collect::<Vec<_>>().join(" ; ");
+            return run.violation("C13.sequence", &sig, json!({"sequence": cur.iter().map(|h| hand_json(h)).collect::<Vec<_>>()}), &m);
+        }
+        // every ordered pair of class representatives
+        let t = poker::tables();
+        let items: Vec<[u32; 5]> = (1..=7462usize).map(|v| words_of_ci(&t.rep[v])).collect();
+        let hit = engine::ordered_pairs(
+            &items,
+            &|a| {
+                let h = Five::from(*a);
+                #[allow(deprecated)]
+                std::hint::black_box((h.is_flush(), h.is_straight(), h.is_straight_flush(), h.is_wheel(), ckc_rs::evaluate::is_flush(*a), ckc_rs::evaluate::or_rank_bits(*a)));
+            },
+            &|b| {
+                let m = model(b);
+                let h = Five::from(*b);
+                #[allow(deprecated)]
+                let ok = h.is_flush() == m.flush && h.is_straight() == m.straight && h.is_straight_flush() == (m.flush && m.straight) && h.is_wheel() == m.wheel && h.or_rank_bits() == m.or_rank && h.and_bits() == m.and_bits && ckc_rs::evaluate::is_flush(*b) == m.flush && ckc_rs::evaluate::or_rank_bits(*b) == m.or_rank as usize;
+                if ok {
+                    Ok(())
+                } else {
+                    examine(b).map_err(|(cl, msg)| format!("{}: {}", cl, msg)).and(Err("a predicate gave a wrong answer that does not reproduce when the call is repeated".to_string()))
+                }
+            },
+        );
+        let n = items.len() as u64;
+        run.generator("all ordered pairs of class representatives, predicates back to back", "exhaustive (histories of length 2)", Some(n * n), n * n, n * n - n, "items = one hand per strength class");
+        if let Some((a, b, m)) = hit {
+            let sig = format!("{} ; {}", card::render_hand(&items[a]), card::render_hand(&items[b]));
+            return run.violation("C13.sequence", &sig, json!({"sequence": [hand_json(&items[a]), hand_json(&items[b])]}), &format!("after the predicates were called on [{}]: {}", card::render_hand(&items[a]), m));
+        }
+    }
     run.generator(&format!("five-subsets, canonical + {} seeded orders", orders), "exhaustive", Some(choose(52, 5)), acc.n, acc.nontrivial, "cases = subsets");
     run.class("flush (incl. straight flush)", acc.classes[0]);
     run.class("straight (incl. straight flush)", acc.classes[1]);
@@ -184,7 +267,16 @@ pub fn run(run: &mut Run) -> PResult {
     Ok(())
 }
 
-pub fn check_case(_clause: &str, case: &Value) -> Result<(), String> {
+pub fn check_case(clause: &str, case: &Value) -> Result<(), String> {
+    if clause == "C13.sequence" {
+        let _ = examine(&words_of_ci(&[51u8, 47, 43, 39, 2]));
+        for (i, h) in case["sequence"].as_array().ok_or("sequence")?.iter().enumerate() {
+            let ws = engine::parse_words(&h["words"])?;
+            cis_of(&ws)?;
+            examine(&arr::<5>(&ws)?).map_err(|(c, m)| format!("call {} of the sequence: {}: {}", i + 1, c, m))?;
+        }
+        return Ok(());
+    }
     let ws = engine::parse_words(&case["words"])?;
     cis_of(&ws)?;
     examine(&arr::<5>(&ws)?).map_err(|(c, m)| format!("{}: {}", c, m))
